@@ -114,6 +114,25 @@ def run_check_guarded(mod, case):
             res.classes = list(res.classes) + ["cfg:deep-tree-algorithms"]
             return res
         return mod.check(case)
+    except MemoryError as e:
+        # the worker's address-space limit was hit.  If the allocation happened inside optyx (innermost optyx frame below the
+        # harness frames), an ordinary-sized generated input made the code under test allocate gigabytes: a violation;
+        # otherwise it is the harness' own problem.
+        import gc
+        frames, ex_ = [], e
+        while ex_ is not None and len(frames) < 400:   # also the exception being handled when memory ran out again
+            frames += list(traceback.extract_tb(ex_.__traceback__))
+            ex_ = ex_.__context__
+        repo_src = os.path.join(os.path.realpath(os.environ.get("VERIF_REPO", "/repo")), "src")
+        where = [f for f in frames if os.path.realpath(f.filename).startswith(repo_src)]
+        del frames
+        gc.collect()
+        if where:
+            last = where[-1]
+            return Result.violation("memory-exhausted:" + os.path.basename(last.filename) + ":" + last.name,
+                                    "the case made optyx exhaust the worker's address-space limit (VERIF_WORKER_MEM_GB) in "
+                                    + os.path.basename(last.filename) + ":" + str(last.lineno))
+        return Result("harness", "harness-error", "MemoryError outside optyx")
     except HarnessError as e:
         return Result("harness", "harness-error", str(e))
 
